@@ -9,10 +9,10 @@ import struct
 from .common import Oracle, Suite, errname, hx, merge
 
 GEN_UNITS = ["Totp", "PyUnicode", "B64", "TotpAll"]
-LEAN_TARGETS = ["PasslibVerif.Props.C13"]
+LEAN_TARGETS = ["PasslibVerif.Props.C13", "PasslibVerif.Props.C13Time"]
 ASSUMPTIONS = [
     "hashlib (OpenSSL) SHA-1/256/512 are external; the HMAC construction around them is proved equal to RFC 2104 for an abstract digest",
-    "calendar.timegm is external: compared against an independent days-from-civil formula on every generated date-time",
+    "calendar.timegm / datetime arithmetic are modelled (Model.TotpTime, both the pure-Python and the C implementation) and compared with the interpreter on every run; the wall clock (time=None) is a parameter; floats are exact ratios (IEEE rounding at construction is outside the model)",
 ]
 EXPLANATION = (
     "Theorems: dynamic truncation = RFC 4226 DT for every digest >= 20 bytes; rendered token = zero-padded decimal of DT mod 10^d with "
@@ -200,7 +200,12 @@ def correspond(ctx):
         o_sc.check(tag, got == exp, inp, got, exp)
     for tag, inp, got, exp in key_spelling_cases(rng, ctx.thorough):
         o_sc.check(tag, got == exp, inp, got, exp)
-    return merge(s_tok, s_cnt, s_key, o_sc)
+    # date-times, floats and the calendar under them: Model.TotpTime vs TOTP.normalize_time / calendar.timegm / datetime (both implementations)
+    from . import c13_time
+
+    s_time = Suite(ctx, "normalize-time-and-calendar")
+    c13_time.model_suite(ctx, s_time)
+    return merge(s_tok, s_cnt, s_key, o_sc, s_time)
 
 
 def search(ctx, broken, seeds):
@@ -244,5 +249,14 @@ def search(ctx, broken, seeds):
 
 
 def replay(ctx, inp):
+    if inp.get("op") == "negative-fractional-time":
+        from passlib.totp import TOTP
+
+        t = TOTP(key=b"k" * 20, format="raw")
+        try:
+            g = t.generate(inp["time"])
+            return {"fails": not (g.start_time <= inp["time"] < g.expire_time), "observed": {"counter": g.counter, "start": g.start_time, "expire": g.expire_time}}
+        except ValueError as e:
+            return {"fails": False, "observed": "refused: " + str(e)}
     r = search(ctx, [], [])
     return {"fails": r is not None, "observed": r}
